@@ -253,6 +253,16 @@ func runTeardownCase[T any](codec Codec[T], tc tdCase) *tdOutcome {
 			out.p15 = append(out.p15, fmt.Sprintf("goroutine left behind ×%d: %s", n, k))
 		}
 	}
+	// calls made through the dead remotes afterwards (they fail at once) must leave nothing behind either
+	for _, rem := range []Remote{ra, rb} {
+		rem := rem
+		r := withWatchdog(func() (any, error) {
+			return rem.WithClosure(context.Background(), 1, false, func(ctx context.Context, i int, s string) (string, error) { return s, nil })
+		})
+		if !r.ok {
+			out.p15 = append(out.p15, "a closure-carrying call made after teardown hangs")
+		}
+	}
 	for _, s := range []*Side[T]{p.A, p.B} {
 		if n := s.Reg.VerifClosureCount(); n != 0 {
 			out.p15 = append(out.p15, fmt.Sprintf("side %s: %d closure registrations remain", s.Name, n))
@@ -279,6 +289,13 @@ func runTeardownCase[T any](codec Codec[T], tc tdCase) *tdOutcome {
 		}
 		if len(lc) != 1 || len(ld) != 1 || (len(lc) == 1 && len(rc) == 1 && lc[0] != rc[0]) || (len(ld) == 1 && len(rc) == 1 && ld[0] != rc[0]) {
 			out.p14 = append(out.p14, fmt.Sprintf("side %s: per-link hooks: %d connect / %d disconnect notifications (want 1/1 with the registry's id)", s.Name, len(lc), len(ld)))
+		}
+		// "once the link has ended AND its transport reads have returned": no disconnect while a read is still open
+		for _, h := range s.Hooks() {
+			if (h.Kind == "reg.disconnect" || h.Kind == "link.disconnect") && h.ReadsOpen > 0 {
+				out.p14 = append(out.p14, fmt.Sprintf("side %s: the %s notification was delivered while %d transport read(s) of the link had not returned yet (requests arriving on them are still handled)", s.Name, h.Kind, h.ReadsOpen))
+				break
+			}
 		}
 		checkEnum(s, "after teardown")
 		// connect precedes every invocation: the first invocation's remote id is the announced one
